@@ -24,7 +24,7 @@ HOSTILE = Profile(hostile=True)
 
 
 def ws(r):
-    return r.choice([' ', '  ', '\t', ' \t ', '   '])
+    return r.choice([' ', ' ', '  ', '\t', ' \t ', '   ', '     ', '\t\t  \t', '        '])
 
 
 def nl(r, p=DEFAULT):
@@ -206,7 +206,7 @@ def document(r, p=DEFAULT, n=None):
         if k < 0.2 * p.comments:
             out += bcomment(r, r.choice(['', '', '  ']), p)
         elif k < 0.35 and p.blank:
-            out += r.choice(['', ' ', '\t  ']) + nl(r, p)
+            out += r.choice(['', ' ', '\t  ', '      ', ' \t \t ']) + nl(r, p)
         else:
             out += directive(r, p)
     if out and r.random() < 0.3:
